@@ -1241,13 +1241,16 @@ def sharing_docs() -> list[tuple[str, dict]]:
         P["/things"] = {"get": {"operationId": "search_things", "parameters": [clone(common), clone(common_enum)], "responses": ok}, "post": {"operationId": "make_thing", "parameters": [clone(common)], "responses": ok},
                         "parameters": [{"name": "X-Order", "in": "header", "schema": {"type": "string", "enum": ["a", "b", None], "nullable": True}}]}
         # names that need a prefix (leading digit / underscore) used as a tag and, in other path items, as parameter, property and operation id
+        #   (each such name meets its second role only while the paths are parsed, never in components.schemas)
         P["/2fa/enroll"] = {"post": {"operationId": "enroll", "tags": ["2fa"], "responses": ok}}
-        P["/login"] = {"get": {"operationId": "login", "tags": ["auth"], "parameters": [{"name": "2fa", "in": "query", "schema": {"type": "string"}}, {"name": "_meta", "in": "query", "schema": {"type": "integer"}}], "responses": ok}}
-        P["/meta"] = {"get": {"operationId": "_meta", "tags": ["_meta", "1"], "responses": ok}, "put": {"operationId": "2fa", "tags": ["auth"], "responses": ok}}
+        P["/login"] = {"get": {"operationId": "login", "tags": ["auth"], "parameters": [{"name": "2fa", "in": "query", "schema": {"type": "string"}}], "responses": ok}}
+        P["/meta"] = {"get": {"operationId": "_meta", "tags": ["auth"], "responses": ok}, "put": {"operationId": "put_meta", "tags": ["_meta"], "responses": ok}}
+        P["/one"] = {"get": {"operationId": "get_one", "tags": ["1"], "responses": ok},
+                     "post": {"operationId": "post_one", "tags": ["auth"], "responses": {"200": {"description": "ok", "content": {"application/json": {"schema": {"type": "object", "properties": {"1": {"type": "boolean"}}}}}}}}}
         # a composed model whose inline member requires several properties its referenced parent declares optional
-        d["components"]["schemas"]["Numbered"] = {"type": "object", "properties": {"2fa": {"type": "string"}, "_meta": {"type": "integer"}, "1": {"type": "boolean"}}}
+        d["components"]["schemas"]["Numbered"] = {"type": "object", "properties": {"4x": {"type": "string"}, "_hidden": {"type": "integer"}, "9": {"type": "boolean"}}}
         d["components"]["schemas"]["StrictDoc"] = {"allOf": [R("Doc"), {"type": "object", "required": ["pages", "kind", "title", "summary"], "properties": {"summary": {"type": "string"}}}]}
-        d["components"]["schemas"]["StrictNumbered"] = {"allOf": [{"required": ["1", "_meta", "2fa"]}, R("Numbered")]}
+        d["components"]["schemas"]["StrictNumbered"] = {"allOf": [{"required": ["9", "_hidden", "4x"]}, R("Numbered")]}
         # overriding is by (name, location) only: a path-item parameter whose *identifier* equals an operation parameter's is a
         # different parameter; an operation-level name used in two locations still overrides the path-item one in its location
         P["/search"] = {"parameters": [{"name": "user_id", "in": "query", "schema": {"type": "string"}}, {"name": "limit", "in": "query", "schema": {"type": "integer"}},
@@ -1262,6 +1265,10 @@ def sharing_docs() -> list[tuple[str, dict]]:
         # reusable parameters used by several operations, one of which also has the same name in another location
         d["components"]["parameters"] = {"Version": {"name": "version", "in": "query", "schema": {"type": "string"}},
                                          "Trace": {"name": "X-Trace", "in": "header", "schema": {"type": "string", "enum": ["on", "off"]}}}
+        d["components"]["parameters"].update({"TraceHeader": {"name": "trace-id", "in": "header", "schema": {"type": "string"}}, "TraceQuery": {"name": "trace_id", "in": "query", "schema": {"type": "string"}},
+                                              "TenantCookie": {"name": "tenant", "in": "cookie", "schema": {"type": "string"}}, "TenantQuery": {"name": "tenant", "in": "query", "schema": {"type": "string"}}})
+        P["/by-header"] = {"get": {"operationId": "by_header", "parameters": [{"$ref": "#/components/parameters/TraceHeader"}, {"$ref": "#/components/parameters/TenantCookie"}], "responses": ok}}
+        P["/by-query"] = {"get": {"operationId": "by_query", "parameters": [{"$ref": "#/components/parameters/TraceQuery"}, {"$ref": "#/components/parameters/TenantQuery"}], "responses": ok}}
         PV, PT = {"$ref": "#/components/parameters/Version"}, {"$ref": "#/components/parameters/Trace"}
         P["/versions"] = {"get": {"operationId": "list_versions", "parameters": [PV, PT], "responses": ok}}
         P["/archive/{version}/things"] = {"get": {"operationId": "list_archived", "parameters": [{"name": "version", "in": "path", "required": True, "schema": {"type": "integer"}}, PV], "responses": ok},
@@ -1315,6 +1322,14 @@ def interplay_docs() -> list[tuple[str, dict]]:
         mk(f"enum_named_{nm}", schemas=S, paths={"/e": {"get": {"operationId": "get_e", "parameters": [{"name": "e", "in": "query", "schema": R(nm)}], "responses": {"200": {"description": "ok", "content": {"application/json": {"schema": R(nm)}}}}}}})
         S2 = {nm: {"type": "object", "properties": {"a": {"type": "string"}, "self_ref": R(nm), "day": {"type": "string", "format": "date"}}}, "Holder": {"type": "object", "properties": {"m": R(nm), "ms": {"type": "array", "items": R(nm)}, "u": {"oneOf": [R(nm), {"type": "integer"}]}}}}
         mk(f"model_named_{nm}", schemas=S2, paths={"/m": {"post": {"operationId": "post_m", "requestBody": {"content": {"application/json": {"schema": R(nm)}}}, "responses": {"200": {"description": "ok", "content": {"application/json": {"schema": R(nm)}}}}}}})
+    # two enum declarations deriving one class name whose values differ only in what member naming erases (case, punctuation, leading digits)
+    for label, v1, v2 in (("case_punct", ["On-Hold", "open"], ["on_hold", "open"]), ("case", ["active", "idle"], ["Active", "IDLE"]), ("positional", ["1-queued", "2-done"], ["3-failed", "4-gone"])):
+        for order in (0, 1):
+            S = {"TicketState": {"type": "string", "enum": v1}, "Holder": {"type": "object", "properties": {"s": R("TicketState"), "l": {"type": "array", "items": R("TicketState")}}, "required": ["s"]},
+                 "Ticket": {"type": "object", "properties": {"state": {"type": "string", "enum": v2}, "id": {"type": "integer"}}}}
+            if order:
+                S = {k_: S[k_] for k_ in ("Ticket", "Holder", "TicketState")}
+            mk(f"enum_same_class_name_{label}_{order}", schemas=S)
     # tags and operation ids named after the package's own modules and dunder files
     for tag in ("types", "errors", "client", "models", "api", "init", "__init__", "default", "py.typed", "import", "None"):
         mk(f"tag_{tag}", schemas={"M": {"type": "object", "properties": {"a": {"type": "string"}}}},
